@@ -32,7 +32,10 @@ ASSUMPTIONS = ['canonical URL components (hostname, path, query, normalised user
                'field names are ASCII (constants of the code or configuration); field values other than Host/Authorization/Cookie '
                'come from configuration and parsed header lines and are CR/LF-free',
                'IPv6 zone identifiers in URL hosts are out of scope here: rejected by the C10/C11 repair of url.py']
-UNPROVED = []
+UNPROVED = ['every_hop_host_and_credentials for sessions WITH a cookie jar (the urllib round trip of CookieJarWrapper.add_cookie_header '
+            'is modelled and co-simulated hop by hop, but the chain induction is proved only without jar; fresh_hop_fields holds for any state either way)',
+            'that one value stored under a name is one line on the wire needs the names-are-distinct invariant of the Fields list '
+            '(not proved; the wire oracle counts Host lines on every real request)']
 
 
 # ------------------------------------------------------------------ prep
